@@ -3,6 +3,7 @@
 import fcntl
 import hashlib
 import json
+import re
 import os
 import shutil
 import subprocess
@@ -454,6 +455,108 @@ def _rewrite_paths(text, mapping, prefix=""):
     return text
 
 
+def _erase(ty):
+    t = re.sub(r"'\w+\s*", "", ty or "")
+    return re.sub(r"\s+", "", t).replace("<>", "")
+
+
+def _base_ty(ty):
+    t = _erase(ty)
+    while t.startswith("&"):
+        t = t[4:] if t.startswith("&mut") else t[1:]
+    return re.sub(r"<.*$", "", t)
+
+
+def _first_generic(ty):
+    """`A` of `X<A, B>` (top-level split)"""
+    t = ty or ""
+    i = t.find("<")
+    if i < 0:
+        return None
+    depth, cur = 0, ""
+    for ch in t[i + 1:]:
+        if ch in "<([":
+            depth += 1
+        elif ch in ">)]":
+            if depth == 0:
+                break
+            depth -= 1
+        elif ch == "," and depth == 0:
+            break
+        cur += ch
+    return cur.strip() or None
+
+
+_CONVERSION_IMPL = re.compile(r"^<(.+) as (?:std|core)::(?:convert::From|convert::TryFrom|str::FromStr|str::traits::FromStr)(?:<(.*)>)?>::(from|try_from|from_str)$")
+_DISPATCHERS = (("convert::Into::into", "from"), ("convert::TryInto::try_into", "try_from"), ("str>::parse", "from_str"))
+
+
+def _resolve_conversions(bodies):
+    """Implicit conversions spelled through the standard dispatchers — `x.into()`, `x.try_into()`, `s.parse()` — are calls of the
+    crate's own `From` / `TryFrom` / `FromStr` impl of the target type (that is all the dispatchers do). They are rewritten to
+    direct calls of that impl, in the typed syntax tree and in the MIR alike, so that a mapping moved behind a conversion trait
+    reads like the function it is."""
+    impls = {}
+    for b in bodies:
+        m = _CONVERSION_IMPL.match(b["path"])
+        if m and "{closure" not in b["path"]:
+            impls.setdefault((m.group(3), _base_ty(m.group(1))), []).append((b["path"], _erase(m.group(2) or "")))
+    if not impls:
+        return
+
+    def pick(method, target, source):
+        c = impls.get((method, _base_ty(target)), [])
+        if len(c) > 1 and source is not None:
+            c = [x for x in c if x[1] == _erase(source)] or [x for x in c if _base_ty(x[1]) == _base_ty(source)]
+        return c[0][0] if len(c) == 1 else None
+
+    def hir(n):
+        if isinstance(n, list):
+            for x in n:
+                hir(x)
+            return
+        if not isinstance(n, dict):
+            return
+        for v in n.values():
+            if isinstance(v, (dict, list)):
+                hir(v)
+        if n.get("k") == "MethodCall" and not n.get("args"):
+            for suffix, method in _DISPATCHERS:
+                if (n.get("path") or "").endswith(suffix):
+                    target = n.get("ty") if method == "from" else _first_generic(n.get("ty"))
+                    r = n["recv"]
+                    while isinstance(r, dict) and r.get("k") in ("DropTemps", "Paren") and "e" in r:
+                        r = r["e"]
+                    impl = pick(method, target or "", (r.get("adj_ty") or r.get("ty")) if isinstance(r, dict) else None)
+                    if impl:
+                        recv = n["recv"]
+                        keep = {k: n[k] for k in ("hid", "ty", "adj_ty", "sp") if k in n}
+                        n.clear()
+                        n.update(keep)
+                        n.update({"k": "Call", "f": {"k": "Path", "path": impl, "res": "def", "dk": "AssocFn", "sp": keep.get("sp")},
+                                  "args": [recv], "converted": suffix.rsplit("::", 1)[-1].replace("str>", "str")})
+                    break
+
+    for b in bodies:
+        if b.get("hir"):
+            hir(b["hir"])
+        for blk in ((b.get("mir") or {}).get("blocks") or []):
+            t = blk.get("term") or {}
+            f = t.get("func") or {}
+            if t.get("k") != "call" or f.get("k") != "const" or not f.get("fn_path"):
+                continue
+            for suffix, method in _DISPATCHERS:
+                if f["fn_path"].endswith(suffix):
+                    ga = f.get("gargs") or []
+                    target, source = (ga[1], ga[0]) if method != "from_str" and len(ga) >= 2 else ((ga[0], None) if ga else (None, None))
+                    impl = pick(method, target or "", source)
+                    if impl:
+                        f["dispatcher"] = f["fn_path"]
+                        f["fn_path"] = f["inst_path"] = impl
+                        f["gargs"] = []
+                    break
+
+
 class Crate:
     def __init__(self, path, moved=None, members=None):
         with open(path) as f:
@@ -500,6 +603,7 @@ class Crate:
                 full = dict(lasts)
                 full.update({"zeep_lib::" + k_: v_ for k_, v_ in lasts.items()})
                 _rename_method_calls(d.get("bodies", []), full)
+        _resolve_conversions(d.get("bodies", []))
         self.name = d["crate"]
         self.items = d["items"]
         self.defs = d["defs"]
